@@ -1,25 +1,41 @@
-"""facts_C07.py -- the control skeleton of the flow-control code of grpclib/protocol.py as Coq data
+"""facts_C07.py -- what the flow-control code of grpclib/protocol.py DOES, as path/effect facts
 (coq/Gen/FactsC07.v), regenerated from the source on every run (`ast` only, fail-closed).
 
-For each of Stream.send_data, EventsProcessor.process_window_updated,
-EventsProcessor.process_remote_settings_changed, Connection.pause_writing / resume_writing / flush and
-H2Protocol.pause_writing / resume_writing the translator emits the sequence, in evaluation order,
-of the things the model Model/FlowSend.v depends on:
+The facts are stated by meaning, not by spelling.  Each function is first normalised by tools/pynorm.py
+(docstrings/annotations stripped, private helpers of the same class/module inlined -- sync ones and
+coroutines awaited at once --, early-exit form, single-use temporaries inlined) and then executed
+SYMBOLICALLY, one loop iteration deep: every control-flow path becomes the sequence of the effects the
+model Model/FlowSend.v depends on, with objects named by ROLE, never by attribute or variable name:
 
-   await:<dotted name>     an await of a call           (suspension point)
-   builtin:min/<n>         a call of min / max with n arguments (the chunk size computation)
-   call:<dotted name>      a call on an attribute chain starting at `self.` or at a loop variable
-   read:<dotted name>      a read of self._h2_connection.<attr>   (h2 state used without a call)
-   while-true( ... )       `while True:` loop
-   if:<test>( ... else ... ) / for:<target> in <iter>( ... )
-   continue / break / return
+  await:<event>                 suspension point: `await <event>.wait()`
+  set:<event> / clear:<event>   Event.set() / Event.clear()
+      <event> = write_ready | window_updated(self) | window_updated(all)      every registered stream
+              | window_updated(addressed)    the stream `streams.get(event.stream_id)`
+  h2:window_read                <h2>.local_flow_control_window(...)            (any receiver: h2 API name)
+  h2:send_data, h2:data_to_send, h2:<other h2 API call>
+  transport:write(h2data)       <x>.write(<result of data_to_send()>)
+  chunk:min{max_frame,other,window}   a min() over the window just read, max_outbound_frame_size, ...
+  window>0 / window<=0          the branch taken on the window just read (any spelling: `not w > 0`, `w <= 0`,
+                                `w < 1`, `0 >= w`, inverted if/else, De Morgan)
+  sid==0 / sid!=0, addressed:present / addressed:absent, has:<SETTING> / lacks:<SETTING>,
+  closing / not-closing         branches on event.stream_id, on the registry lookup, on
+                                `<SETTING> in event.changed_settings`, on is_closing()
+  call:self.flush, call:connection.pause_writing, call:connection.resume_writing
+  ->loop | ->exit | ->raise     how the path ends (next loop iteration / function returns / raises)
 
-Local renames, comments, statistics counters and reformatting do not change the skeleton; a new
-await, a removed clear(), a reordered call or a changed test do.  Anything that is not one of the
-recognised statement kinds raises (fail-closed)."""
+Branches on anything else (e.g. "was this the last chunk") fork the path without a token; a repeated test
+of the same unchanged expression does not fork twice.  Tokens about things C07 does not talk about
+(MAX_CONCURRENT_STREAMS, stream_close_waiter, statistics, BytesIO book-keeping) are dropped and the
+resulting paths de-duplicated and sorted, so renaming locals or private attributes, extracting or inlining
+helpers, if/else versus early return, temporaries, `remaining` versus `f_pos/f_last`, one loop over a
+computed list of streams versus two loops ... do not change the facts.  A new await, a dropped clear(), a
+send that is not written at once, a wake-up that became conditional or partial, a changed window test do.
+Anything the symbolic execution does not understand raises (fail-closed)."""
 import ast
+import copy
 
-from extract_facts import parse, func_node, zs, Unsupported
+from extract_facts import parse, zs, Unsupported as XUnsupported
+import pynorm
 
 TARGETS = [
     ('send_data', 'Stream', 'send_data'),
@@ -32,151 +48,412 @@ TARGETS = [
     ('protocol_resume_writing', 'H2Protocol', 'resume_writing'),
 ]
 
+H2_API = {'send_data', 'data_to_send', 'local_flow_control_window', 'reset_stream', 'end_stream',
+          'send_headers', 'increment_flow_control_window', 'acknowledge_received_data', 'update_settings',
+          'close_connection', 'ping'}
+C07_EVENTS = ('write_ready', 'window_updated')
 
-def dotted(node):
-    parts = []
-    while isinstance(node, ast.Attribute):
-        parts.append(node.attr)
-        node = node.value
-    if isinstance(node, ast.Name):
-        parts.append(node.id)
-        return '.'.join(reversed(parts))
+
+class Unsupported(Exception):
+    pass
+
+
+class St:
+    """one path under construction"""
+
+    def __init__(self):
+        self.tokens = []
+        self.env = {}          # local name -> role
+        self.ver = {}          # local name -> number of assignments (invalidates remembered branches)
+        self.assumed = {}      # key of an uninterpreted test -> bool
+        self.status = None     # None (running) | 'loop' | 'exit' | 'raise' | 'break' | 'continue'
+
+    def fork(self):
+        s = St()
+        s.tokens = list(self.tokens)
+        s.env = dict(self.env)
+        s.ver = dict(self.ver)
+        s.assumed = dict(self.assumed)
+        s.status = self.status
+        return s
+
+    def bind(self, name, role):
+        self.env[name] = role
+        self.ver[name] = self.ver.get(name, 0) + 1
+
+
+def ev_name(role):
+    """printable name of an event role"""
+    _, kind, owner = role
+    if kind == 'window_updated':
+        return 'window_updated(%s)' % owner
+    return kind
+
+
+# ------------------------------------------------------------------------------------------------
+# expressions: record effects in evaluation order, return the role of the value
+
+def eval_expr(e, st):
+    if e is None:
+        return ('other',)
+    if isinstance(e, ast.Await):
+        v = e.value
+        if isinstance(v, ast.Call) and isinstance(v.func, ast.Attribute) and v.func.attr == 'wait':
+            r = eval_expr(v.func.value, st)
+            if r[0] == 'ev':
+                st.tokens.append('await:' + ev_name(r))
+                return ('other',)
+        # any other suspension point: keep it visible
+        eval_expr(v, st)
+        st.tokens.append('await:?' + (ast.unparse(v.func) if isinstance(v, ast.Call) else ast.unparse(v)))
+        return ('other',)
+    if isinstance(e, ast.Call):
+        return eval_call(e, st)
+    if isinstance(e, ast.Attribute):
+        r = eval_expr(e.value, st)
+        a = e.attr
+        if a == 'window_updated':
+            owner = {'self': 'self', 'addressed': 'addressed', 'elem_all': 'all'}.get(r[0])
+            if owner is None:
+                raise Unsupported('window_updated of an unrecognised object: ' + ast.unparse(e))
+            return ('ev', 'window_updated', owner)
+        if a in ('write_ready', 'stream_close_waiter'):
+            return ('ev', a, None)
+        if a == 'streams' and r[0] == 'self':
+            return ('registry',)
+        if a == 'connection' and r[0] == 'self':
+            return ('connection',)
+        if a == 'stream_id':
+            return ('sid',)
+        if a == 'changed_settings':
+            return ('changed_settings',)
+        if a == 'max_outbound_frame_size':
+            return ('max_frame',)
+        if r == ('name', 'SettingCodes'):
+            return ('setting', a)
+        return ('attr', r, a)
+    if isinstance(e, ast.Name):
+        if e.id == 'self':
+            return ('self',)
+        return st.env.get(e.id, ('name', e.id))
+    if isinstance(e, ast.Constant):
+        return ('const', e.value)
+    if isinstance(e, (ast.Tuple, ast.List)):
+        return ('seq', tuple(eval_expr(x, st) for x in e.elts))
+    if isinstance(e, ast.UnaryOp) and isinstance(e.op, ast.Not):
+        return ('not', eval_expr(e.operand, st))
+    if isinstance(e, ast.Compare) and len(e.ops) == 1:
+        l = eval_expr(e.left, st)
+        r = eval_expr(e.comparators[0], st)
+        return ('cmp', type(e.ops[0]).__name__, l, r)
+    if isinstance(e, (ast.IfExp, ast.BoolOp)):
+        # short-circuit evaluation: only allowed here when no effect hides inside
+        probe = st.fork()
+        for ch in ast.iter_child_nodes(e):
+            if isinstance(ch, ast.expr):
+                eval_expr(ch, probe)
+        if probe.tokens != st.tokens:
+            raise Unsupported('effect inside a conditional expression: ' + ast.unparse(e))
+        return ('other',)
+    if isinstance(e, (ast.Lambda, ast.ListComp, ast.SetComp, ast.DictComp, ast.GeneratorExp, ast.Yield,
+                      ast.YieldFrom, ast.NamedExpr, ast.Starred)):
+        raise Unsupported('expression kind ' + type(e).__name__)
+    for ch in ast.iter_child_nodes(e):
+        if isinstance(ch, ast.expr):
+            eval_expr(ch, st)
+    return ('other',)
+
+
+def eval_call(e, st):
+    f = e.func
+    if isinstance(f, ast.Attribute):
+        recv = eval_expr(f.value, st)
+        args = [eval_expr(a, st) for a in e.args] + [eval_expr(k.value, st) for k in e.keywords]
+        m = f.attr
+        if recv[0] == 'ev':
+            if m in ('set', 'clear'):
+                st.tokens.append('%s:%s' % (m, ev_name(recv)))
+                return ('other',)
+            if m == 'wait':
+                raise Unsupported('Event.wait() that is not awaited at once: ' + ast.unparse(e))
+            return ('other',)                    # is_set()
+        if m == 'local_flow_control_window':
+            st.tokens.append('h2:window_read')
+            return ('window',)
+        if m in H2_API and recv[0] != 'self':
+            st.tokens.append('h2:' + m)
+            return ('h2data',) if m == 'data_to_send' else ('other',)
+        if m == 'write':
+            st.tokens.append('transport:write(%s)' % ('h2data' if ('h2data',) in args else 'other'))
+            return ('other',)
+        if recv[0] == 'registry':
+            if m == 'values' and not args:
+                return ('registry_all',)
+            if m == 'items' and not args:
+                return ('registry_items',)
+            if m == 'get' and args and args[0] == ('sid',) and (len(args) == 1 or args[1] == ('const', None)):
+                return ('addressed',)
+            raise Unsupported('use of the stream registry: ' + ast.unparse(e))
+        if m == 'is_closing':
+            return ('closing',)
+        if m in ('pause_writing', 'resume_writing', 'flush') and recv[0] in ('self', 'connection'):
+            st.tokens.append('call:%s.%s' % (recv[0], m))
+            return ('other',)
+        return ('other',)
+    if isinstance(f, ast.Name):
+        args = [eval_expr(a, st) for a in e.args] + [eval_expr(k.value, st) for k in e.keywords]
+        if f.id in ('min', 'max') and ('window',) in args:
+            st.tokens.append('chunk:%s{%s}' % (f.id, ','.join(sorted(
+                {('window',): 'window', ('max_frame',): 'max_frame'}.get(a, 'other') for a in args))))
+            return ('other',)
+        if f.id in ('list', 'tuple', 'iter', 'reversed') and len(args) == 1 and f.id != 'reversed':
+            return args[0]
+        return ('other',)
+    eval_expr(f, st)
+    for a in e.args:
+        eval_expr(a, st)
+    return ('other',)
+
+
+# ------------------------------------------------------------------------------------------------
+# branches
+
+def int_bound(op, c, window_left):
+    """window <op> c (or c <op> window) over the integers as ('>=', k) / ('<=', k)"""
+    if not window_left:
+        op = {'Gt': 'Lt', 'GtE': 'LtE', 'Lt': 'Gt', 'LtE': 'GtE'}.get(op, op)
+    return {'Gt': ('>=', c + 1), 'GtE': ('>=', c), 'Lt': ('<=', c - 1), 'LtE': ('<=', c)}.get(op)
+
+
+def classify(role):
+    """(token if true, token if false) of a test with the given role, or None (uninterpreted)"""
+    if role[0] == 'not':
+        c = classify(role[1])
+        return None if c is None else (c[1], c[0])
+    if role[0] == 'cmp':
+        _, op, l, r = role
+        for a, b, left in ((l, r, True), (r, l, False)):
+            if a == ('window',) and b[0] == 'const' and isinstance(b[1], int) and not isinstance(b[1], bool):
+                bd = int_bound(op, b[1], left)
+                if bd == ('>=', 1):
+                    return ('window>0', 'window<=0')
+                if bd == ('<=', 0):
+                    return ('window<=0', 'window>0')
+                raise Unsupported('the window is compared with something other than zero')
+            if a == ('sid',) and b == ('const', 0) and op in ('Eq', 'NotEq'):
+                return ('sid==0', 'sid!=0') if op == 'Eq' else ('sid!=0', 'sid==0')
+            if a == ('addressed',) and b == ('const', None) and op in ('Is', 'IsNot', 'Eq', 'NotEq'):
+                return ('addressed:absent', 'addressed:present') if op in ('Is', 'Eq') else \
+                    ('addressed:present', 'addressed:absent')
+        if l[0] == 'setting' and r == ('changed_settings',) and op in ('In', 'NotIn'):
+            t = ('has:' + l[1], 'lacks:' + l[1])
+            return t if op == 'In' else (t[1], t[0])
+        if ('window',) in (l, r):
+            raise Unsupported('unrecognised test of the window')
+        return None
+    if role == ('addressed',):
+        return ('addressed:present', 'addressed:absent')
+    if role == ('closing',):
+        return ('closing', 'not-closing')
+    if role == ('window',):
+        raise Unsupported('truthiness test of the window')
     return None
 
 
-class Skel:
-    def __init__(self, roots):
-        self.roots = set(roots)         # names whose attribute chains are tracked
-        self.out = []
+def names_in(e):
+    return sorted({n.id for n in ast.walk(e) if isinstance(n, ast.Name)})
 
-    def expr(self, node):
-        """tokens of an expression, operands before the operation (evaluation order)"""
-        if node is None:
-            return
-        if isinstance(node, ast.Await):
-            v = node.value
-            if not isinstance(v, ast.Call) or dotted(v.func) is None:
-                raise Unsupported('await of something that is not a plain call: ' + ast.unparse(node))
-            for a in v.args:
-                self.expr(a)
-            for k in v.keywords:
-                self.expr(k.value)
-            self.out.append('await:' + dotted(v.func))
-            return
-        if isinstance(node, ast.Call):
-            for a in node.args:
-                self.expr(a)
-            for k in node.keywords:
-                self.expr(k.value)
-            d = dotted(node.func)
-            if isinstance(node.func, ast.Name) and node.func.id in ('min', 'max'):
-                self.out.append('builtin:%s/%d' % (node.func.id, len(node.args)))
-            elif d is not None and d.split('.')[0] in self.roots:
-                kws = ','.join(sorted(k.arg for k in node.keywords if k.arg))
-                self.out.append('call:' + d + ('[' + kws + ']' if kws else ''))
+
+def branch(test, st):
+    """[(state, truth)] -- forks on the test"""
+    if isinstance(test, ast.UnaryOp) and isinstance(test.op, ast.Not):
+        return [(s, not b) for s, b in branch(test.operand, st)]
+    if isinstance(test, ast.BoolOp):
+        is_and = isinstance(test.op, ast.And)
+        live, done = [st], []
+        for v in test.values:
+            nxt = []
+            for s in live:
+                for s2, b in branch(v, s):
+                    (nxt if b == is_and else done).append((s2, b))
+            live = [s for s, _ in nxt]
+        return done + [(s, is_and) for s in live]
+    if isinstance(test, ast.Constant):
+        return [(st, bool(test.value))]
+    role = eval_expr(test, st)
+    c = classify(role)
+    if c is not None:
+        # a classified test repeated on the same path must agree with itself
+        for tok, other, val in ((c[0], c[1], True), (c[1], c[0], False)):
+            if tok in st.tokens and other not in st.tokens and tok.split(':')[0] not in ('window>0', 'window<=0'):
+                return [(st, val)]
+        t, f = st, st.fork()
+        t.tokens.append(c[0])
+        f.tokens.append(c[1])
+        return [(t, True), (f, False)]
+    key = ast.dump(test) + repr([(n, st.ver.get(n, 0)) for n in names_in(test)])
+    if key in st.assumed:
+        return [(st, st.assumed[key])]
+    t, f = st, st.fork()
+    t.assumed[key] = True
+    f.assumed[key] = False
+    return [(t, True), (f, False)]
+
+
+# ------------------------------------------------------------------------------------------------
+# statements
+
+def run_block(stmts, states):
+    for s in stmts:
+        nxt = []
+        for st in states:
+            if st.status is not None:
+                nxt.append(st)
             else:
-                self.expr(node.func)
-            return
-        if isinstance(node, ast.Attribute):
-            d = dotted(node)
-            if d is not None and d.startswith('self._h2_connection.'):
-                self.out.append('read:' + d)
-                return
-            self.expr(node.value)
-            return
-        if isinstance(node, (ast.Lambda, ast.ListComp, ast.SetComp, ast.DictComp, ast.GeneratorExp,
-                             ast.Yield, ast.YieldFrom, ast.NamedExpr)):
-            raise Unsupported('expression kind ' + type(node).__name__)
-        for child in ast.iter_child_nodes(node):
-            if isinstance(child, ast.expr):
-                self.expr(child)
+                nxt += run_stmt(s, st)
+        states = nxt
+    return states
 
-    def stmts(self, body):
-        for s in body:
-            self.stmt(s)
 
-    def stmt(self, s):
-        if isinstance(s, ast.Expr):
-            if isinstance(s.value, ast.Constant):
-                return                      # docstring
-            self.expr(s.value)
-        elif isinstance(s, ast.Assign):
-            self.expr(s.value)
-            for t in s.targets:
-                self.target(t)
-        elif isinstance(s, ast.AugAssign):
-            self.expr(s.value)
-            self.target(s.target)
-        elif isinstance(s, ast.AnnAssign):
-            self.expr(s.value)
-            self.target(s.target)
-        elif isinstance(s, ast.Assert):
-            self.expr(s.test)
-        elif isinstance(s, ast.While):
-            if not (isinstance(s.test, ast.Constant) and s.test.value is True) or s.orelse:
-                raise Unsupported('while loop other than `while True`')
-            self.out.append('while-true(')
-            self.stmts(s.body)
-            self.out.append(')')
-        elif isinstance(s, ast.If):
-            self.expr(s.test)
-            self.out.append('if:' + ast.unparse(s.test) + '(')
-            self.stmts(s.body)
-            if s.orelse:
-                self.out.append('else')
-                self.stmts(s.orelse)
-            self.out.append(')')
-        elif isinstance(s, ast.For):
-            if s.orelse or not isinstance(s.target, ast.Name):
-                raise Unsupported('for loop shape')
-            self.expr(s.iter)
-            self.out.append('for:%s in %s(' % (s.target.id, ast.unparse(s.iter)))
-            self.roots.add(s.target.id)
-            self.stmts(s.body)
-            self.roots.discard(s.target.id)
-            self.out.append(')')
-        elif isinstance(s, ast.Continue):
-            self.out.append('continue')
-        elif isinstance(s, ast.Break):
-            self.out.append('break')
-        elif isinstance(s, ast.Return):
-            self.expr(s.value)
-            self.out.append('return')
-        elif isinstance(s, ast.Pass):
-            pass
+def assign(target, role, st):
+    if isinstance(target, ast.Name):
+        st.bind(target.id, role)
+    elif isinstance(target, (ast.Tuple, ast.List)):
+        for i, t in enumerate(target.elts):
+            assign(t, role[1][i] if role[0] == 'seq' and len(role[1]) == len(target.elts) else ('other',), st)
+    elif isinstance(target, (ast.Attribute, ast.Subscript)):
+        pass                       # object state that is not an Event (statistics counters, ...)
+    else:
+        raise Unsupported('assignment target ' + ast.unparse(target))
+
+
+def run_stmt(s, st):
+    if isinstance(s, ast.Expr):
+        eval_expr(s.value, st)
+        return [st]
+    if isinstance(s, (ast.Assign, ast.AnnAssign)):
+        value = s.value
+        targets = s.targets if isinstance(s, ast.Assign) else [s.target]
+        if isinstance(value, ast.IfExp):
+            out = []
+            for s2, b in branch(value.test, st):
+                role = eval_expr(value.body if b else value.orelse, s2)
+                for t in targets:
+                    assign(t, role, s2)
+                out.append(s2)
+            return out
+        role = eval_expr(value, st)
+        for t in targets:
+            assign(t, role, st)
+        return [st]
+    if isinstance(s, ast.AugAssign):
+        eval_expr(s.value, st)
+        assign(s.target, ('other',), st)
+        return [st]
+    if isinstance(s, ast.Assert):
+        eval_expr(s.test, st)
+        return [st]
+    if isinstance(s, ast.Pass):
+        return [st]
+    if isinstance(s, ast.If):
+        out = []
+        for s2, b in branch(s.test, st):
+            out += run_block(s.body if b else s.orelse, [s2])
+        return out
+    if isinstance(s, ast.While):
+        if s.orelse or not (isinstance(s.test, ast.Constant) and s.test.value):
+            raise Unsupported('a loop other than `while True`')
+        out = []
+        for s2 in run_block(s.body, [st]):
+            if s2.status in (None, 'continue'):
+                s2.status = 'loop'
+            elif s2.status == 'break':
+                s2.status = None
+            out.append(s2)
+        return out
+    if isinstance(s, ast.For):
+        if s.orelse:
+            raise Unsupported('for ... else')
+        it = eval_expr(s.iter, st)
+        if it == ('registry_all',):
+            elems = [('elem_all',)]
+        elif it == ('registry_items',):
+            elems = [('seq', (('other',), ('elem_all',)))]
+        elif it[0] == 'seq':
+            elems = list(it[1])
         else:
-            raise Unsupported('statement kind %s at line %d' % (type(s).__name__, s.lineno))
+            raise Unsupported('loop over something unrecognised: ' + ast.unparse(s.iter))
+        states = [st]
+        for el in elems:
+            nxt = []
+            for s2 in states:
+                assign(s.target, el, s2)
+                res = run_block(s.body, [s2])
+                if len(res) != 1 or res[0].status is not None:
+                    # a wake-up loop whose body branches, breaks or returns is not "every element"
+                    raise Unsupported('loop body is not straight-line: ' + ast.unparse(s.iter))
+                nxt += res
+            states = nxt
+        return states
+    if isinstance(s, ast.Return):
+        eval_expr(s.value, st)
+        st.status = 'exit'
+        return [st]
+    if isinstance(s, ast.Continue):
+        st.status = 'continue'
+        return [st]
+    if isinstance(s, ast.Break):
+        st.status = 'break'
+        return [st]
+    if isinstance(s, ast.Raise):
+        eval_expr(s.exc, st)
+        st.status = 'raise'
+        return [st]
+    raise Unsupported('statement kind %s: %s' % (type(s).__name__, ast.unparse(s)[:80]))
 
-    def target(self, t):
-        if isinstance(t, ast.Attribute) and dotted(t) and dotted(t).startswith('self.'):
-            pass                            # statistics counters (data_sent, ...)
-        elif isinstance(t, ast.Name):
-            pass
-        elif isinstance(t, (ast.Tuple, ast.List)):
-            for e in t.elts:
-                self.target(e)
-        else:
-            raise Unsupported('assignment target ' + ast.unparse(t))
+
+# ------------------------------------------------------------------------------------------------
+
+def relevant(tok):
+    """is the token about something C07 talks about"""
+    if tok.startswith(('has:', 'lacks:')):
+        return tok.endswith(':INITIAL_WINDOW_SIZE')
+    if tok.startswith(('set:', 'clear:', 'await:')) and not tok.startswith('await:?'):
+        return tok.split(':', 1)[1].startswith(C07_EVENTS)
+    return True
 
 
-def skeleton(fn):
-    sk = Skel(['self', 'stream', 'value'])
-    sk.stmts(fn.body)
-    return sk.out
+def paths_of(tree, cls, name):
+    fn = pynorm.canonical_function(tree, cls, name)
+    st = St()
+    for a in fn.args.args + fn.args.kwonlyargs:
+        if a.arg != 'self':
+            st.env[a.arg] = ('name', a.arg)
+    out = set()
+    for s in run_block(fn.body, [st]):
+        if s.status in ('break', 'continue'):
+            raise Unsupported('break/continue outside a loop')
+        end = {'loop': '->loop', 'raise': '->raise'}.get(s.status, '->exit')
+        out.add(tuple([t for t in s.tokens if relevant(t)] + [end]))
+    return sorted(out)
 
 
 def generate(repo):
     tree = parse(repo, 'grpclib/protocol.py')
-    lines = ['(* GENERATED by tools/facts_C07.py from grpclib/protocol.py -- do not edit. *)',
+    lines = ['(* GENERATED by tools/facts_C07.py from grpclib/protocol.py -- do not edit.',
+             '   For each function: its control-flow paths (one loop iteration deep, private helpers inlined)',
+             '   as sequences of role-named effects; see the docstring of the translator. *)',
              'From Coq Require Import ZArith List.', 'Import ListNotations.', 'Open Scope Z_scope.', '']
     for name, cls, fn in TARGETS:
-        node = func_node(tree, fn, cls)
-        if name == 'send_data' and not isinstance(node, ast.AsyncFunctionDef):
-            raise Unsupported('send_data is not a coroutine function')
-        toks = skeleton(node)
-        lines.append('Definition sk_%s : list (list Z) :=' % name)
-        lines.append('  [ ' + ';\n    '.join('%s   (* %s *)' % (zs(t), t.replace('*)', '* )')) for t in toks) + ' ].'
-                     if toks else '  [].')
+        try:
+            paths = paths_of(tree, cls, fn)
+        except (pynorm.Unsupported, XUnsupported) as e:
+            raise Unsupported('%s.%s: %s' % (cls, fn, e))
+        lines.append('Definition paths_%s : list (list (list Z)) :=' % name)
+        body = []
+        for p in paths:
+            body.append('  [ ' + ';\n    '.join('%s   (* %s *)' % (zs(t), t.replace('*)', '* )')) for t in p) + ' ]')
+        lines.append('[\n' + ';\n'.join(body) + '\n].' if body else '  [].')
         lines.append('')
     return '\n'.join(lines)
 
@@ -184,5 +461,12 @@ def generate(repo):
 if __name__ == '__main__':
     import os
     import sys
-    print(generate(os.environ.get('VERIF_REPO', '/repo')), end='')
+    tree_ = parse(os.environ.get('VERIF_REPO', '/repo'), 'grpclib/protocol.py')
+    if '--show' in sys.argv:
+        for name_, cls_, fn_ in TARGETS:
+            print(name_)
+            for p_ in paths_of(tree_, cls_, fn_):
+                print('   ', ' ; '.join(p_))
+    else:
+        print(generate(os.environ.get('VERIF_REPO', '/repo')), end='')
     sys.exit(0)
